@@ -1980,7 +1980,7 @@ def _gen_replace_filter(model: MachineModel) -> ReplaceFilterFn:
         ' in a future release.',
         DeprecationWarning,
     )
-    return gen_replace_filter('less-then-respecting-multi', model)
+    return gen_replace_filter('less-than-respecting-multi', model)
 
 
 def _mq_gate_collection_filter(op: Operation) -> bool:
